@@ -77,3 +77,60 @@ pub fn five_triple<S: Src>(s: &mut S) {
     let sh = h.shift_suit();
     check!(s, sh.or_rank_bits() == h.or_rank_bits() && sh.is_flush() == h.is_flush() && sh.multiply_primes() == h.multiply_primes(), "C08.five_triple.shift_same_triple");
 }
+
+/// forall six distinct real cards: the value of the shifted hand equals the value of the
+/// hand. Five-card evaluation = ghost V, and V of a shifted five-subset = V of the
+/// subset (exactly the five-card clause proved by C08.five_triple + C01.k3): phase 0
+/// keys V on the cards, phase 1 on the shifted cards.
+pub fn six_shift<S: Src>(s: &mut S) {
+    use super::c02::draw_cards;
+    use crate::stubs::GhostV;
+    use ckc_rs::cards::HandRanker;
+    let (cards, w6) = draw_cards::<S, 6>(s);
+    assume!(s, all_distinct(&w6));
+    let g = GhostV::install(cards, 6);
+    let h = Six::from(w6);
+    let mut shifted = [0u32; 7];
+    let mut i = 0;
+    while i < 6 {
+        shifted[i] = cards[i].shift_suit();
+        i += 1;
+    }
+    g.install_phase1(shifted);
+    g.set_phase(0);
+    let v0 = h.hand_rank_value();
+    g.set_phase(1);
+    let v1 = h.shift_suit().hand_rank_value();
+    check!(s, v0 == v1, "C08.six_shift.value_unchanged");
+}
+
+pub fn seven_shift<S: Src>(s: &mut S) {
+    use super::c02::draw_cards;
+    use crate::stubs::GhostV;
+    use ckc_rs::cards::HandRanker;
+    let (cards, w7) = draw_cards::<S, 7>(s);
+    assume!(s, all_distinct(&w7));
+    let g = GhostV::install(cards, 7);
+    let h = Seven::from(w7);
+    let mut shifted = [0u32; 7];
+    let mut i = 0;
+    while i < 7 {
+        shifted[i] = cards[i].shift_suit();
+        i += 1;
+    }
+    g.install_phase1(shifted);
+    g.set_phase(0);
+    let v0 = h.hand_rank_value();
+    g.set_phase(1);
+    let v1 = h.shift_suit().hand_rank_value();
+    check!(s, v0 == v1, "C08.seven_shift.value_unchanged");
+}
+
+/// thorough: the real five-card evaluator on a hand and on its shift (no stubs)
+pub fn five_shift_direct<S: Src>(s: &mut S) {
+    use ckc_rs::cards::HandRanker;
+    let (_, _, w) = draw_hand5(s);
+    assume!(s, all_distinct(&w));
+    let h = Five::from(w);
+    check!(s, h.shift_suit().hand_rank_value() == h.hand_rank_value(), "C08.five_shift_direct.value_unchanged");
+}
